@@ -91,6 +91,7 @@ func H_C02_ntlm_v2() {
 	ch := &ChallengeMessage{}
 	copy(ch.ServerChallenge[:], vBytes("server", 8))
 	ch.TargetInfo = vBytes("ti", vParam("tilen"))
+	ch.TargetName = vBytes("tn", vParam("tnlen")) // the server's name must not leak into the key derivation: the domain is used as supplied
 	lmResp, ntResp, err := calculateNTLMv2Response(ch, user, pw, domain)
 	vCheck(err == nil, "ntlm/v2/ok")
 	vCheck(len(ntResp) >= 16+28, "ntlm/v2/response-has-proof-and-blob-header")
